@@ -49,7 +49,7 @@ def build_manager(a):
     else:
         g.set_coaxial_pipe(inner_pipe_d_in=0.0442, inner_pipe_d_out=0.050, outer_pipe_d_in=0.0974, outer_pipe_d_out=0.11,
                            roughness=1.0e-6, conductivity_inner=0.4, conductivity_outer=0.4, rho_cp=1542000.0)
-    g.set_soil(conductivity=a.get("k_soil", 2.0), rho_cp=2343493.0, undisturbed_temp=a.get("ugt", 18.3))
+    g.set_soil(conductivity=a.get("k_soil", 2.0), rho_cp=a.get("rho_cp_soil", 2343493.0), undisturbed_temp=a.get("ugt", 18.3))
     g.set_grout(conductivity=a.get("k_grout", 1.0), rho_cp=3901000.0)
     g.set_fluid()
     g.set_borehole(height=a.get("nominal_height", 96.0), buried_depth=2.0, diameter=0.140)
@@ -275,6 +275,16 @@ def _sim_real_check(a):
             return False, {"why": f"hourly after hybrid raised {type(e).__name__}: {e}", "signature": "hourly-after-hybrid"}
         if got != hr_ref:
             return False, {"why": "hourly result depends on an earlier hybrid simulation", "got": got, "want": hr_ref}
+    # the formula holds for the object's current state: a ground property changed in place between two simulations
+    # must give what a freshly built object with that property gives (no stale short-time response / t_s)
+    g4 = _make_ghe(a)
+    g4.simulate(method=HY)
+    g4.bhe.soil.rhoCp = g4.bhe.soil.rhoCp * 2.0
+    g4.simulate(method=HY)
+    ts_want = g4.bhe.b.H ** 2 / (9.0 * g4.bhe.soil.k / g4.bhe.soil.rhoCp)
+    if abs(g4.radial_numerical.t_s - ts_want) > 1e-9 * ts_want:
+        return False, {"why": "after an in-place change of the ground heat capacity the simulation still uses the old characteristic time t_s",
+                       "t_s": g4.radial_numerical.t_s, "want": ts_want}
     # C09 corollaries
     z = _make_ghe(a, scale=0.0)
     z.simulate(method=HY)
